@@ -3,26 +3,26 @@
 import json, os
 root = os.path.dirname(os.path.dirname(os.path.abspath(__file__)))
 props = {
- "C01": ("4 C01", "TLC checks C01_Provenance / C08_Visible / C03_DepsFirst on every state of bounded catalog families; every behaviour TLC generates is replayed on the real container and every recorded random execution is validated by TLC, comparing the provenance of every argument of every executed user function."),
- "C02": ("4 C02", "TLC checks C02_NoReentry, C02_SameInstance, C02_CalledIffOk and the action property C02_NoExecAfterSuccess; conformance compares the multiset of executions and the execution number inside every received value, with faults enabled."),
- "C03": ("4 C03", "TLC checks C03_OnlyClosure, C03_DepsFirst, C03_RegistrationsSilent; conformance compares the set of executed user functions per API call and fails on any execution during Provide/Decorate/Scope/Visualize/String."),
- "C04": ("4 C04", "TLC checks C04_MissingIsReal and C04_OptionalNeverHidesError; conformance compares missing-versus-ok verdicts, the missing keys and zero-versus-value for optional parameters, with gaps at every depth and faults."),
- "C05": ("4 C05", "TLC checks C05_StackBound, C05_EagerAcyclic, C05_NoSpuriousCycle, C02_NoReentry (and termination as liveness in the thorough tier); conformance compares cycle verdicts and watches for process death in child processes."),
- "C06": ("4 C06", "TLC checks the action property C06_NoTrace; conformance compares the raw container state before and after every rejected registration (real versus real), the model state after it, and all later observations."),
- "C07": ("4 C07", "TLC checks C07_NoPartial, C07_FailureLeavesNoTrace, C13_RootIsLogged with up to two faults per behaviour (error and panic, recover on/off); conformance compares provenance, counters, root causes and caches after failures."),
- "C08": ("4 C08", "TLC checks C08_Visible, C08_OwnView, C08_HomeCommit over scope trees with Export; conformance compares provenance from every scope and where values are cached."),
- "C09": ("4 C09", "TLC checks C09_OneProvider and the key clause of C01_Provenance with names, groups and As; conformance compares duplicate verdicts and the provenance received under each key."),
- "C10": ("4 C10", "TLC checks C10_Groups (exact bag, feeders called); conformance compares the bag of every group slice and feeder counters."),
- "C11": ("4 C11", "TLC checks C11_NoTrigger and the soft clause of C10_Groups; conformance compares soft slices and the exec log."),
- "C12": ("4 C12", "TLC checks C12_OnePerScopeKey, the decorator clauses of C01_Provenance / C10_Groups; conformance compares provenance at consumers and decorators, decorator counters and Decorate verdicts."),
- "C13": ("4 C13", "TLC checks C13_RootIsLogged, C13_InvokeErrIsOwn, C04_OptionalNeverHidesError; the harness classifies every error of every API call with the public API (RootCause, errors.Is/As, PanicError, IsCycleDetected) and compares with the specification's verdict and root cause."),
- "C14": ("4 C14", "Every behaviour and every recorded execution is run under a panic guard; rejected inputs are checked for state changes (real versus real); Visualize and String are called after every operation."),
- "C15": ("4 C15", "The catalog generator assigns parameter objects, result objects, variadics and option-versus-tag encodings at random; the specification is defined on flat signatures, so all encodings must produce its predictions."),
- "C16": ("4 C16", "TLC explores every interleaving of registrations and scope creations for each catalog with and without DeferAcyclicVerification; the view merges orders, and every merged history is replayed."),
- "C17": ("4 C17", "TLC checks C17_DrySilent on dry containers; conformance replays every behaviour on a DryRun container whose user functions record any call, comparing verdict classes."),
- "C18": ("4 C18", "Fill*Info results are recorded for every registration and invocation: untouched on rejection (compared on every history)."),
- "C19": ("4 C19", "Visualize (plain and with the last Invoke error) is run after every operation of every history: must not fail, panic or execute user code."),
- "C20": ("4 C20", "TLC checks C20_OneToOne; conformance compares the CallbackInfo sequence with the exec log under a mock clock: one callback right after each execution, Error class, exact Runtime."),
+ "C01": ("4 C01", "TLC checks C01_Provenance / C08_Visible / C03_DepsFirst on every state of bounded catalog families (random small programs, Chain, Shadow) incl. nested parameter objects and re-entrant user functions; every behaviour TLC generates is replayed on the real container and every recorded random execution is validated by TLC, comparing the provenance of every argument of every executed user function; binding self-test (corrupted recordings must be rejected)."),
+ "C02": ("4 C02", "TLC checks C02_NoReentry, C02_SameInstance, C02_CalledIffOk and the action property C02_NoExecAfterSuccess, also for constructors / decorators / invoked functions whose body calls Invoke again (Enter / NestBegin / NestReturn, Reenter family); conformance compares the multiset of executions, the execution number inside every received value, called markers and the outcome of every nested Invoke, with faults enabled; the traces of the repository's own test-suite (trace hooks) are validated by TLC."),
+ "C03": ("4 C03", "TLC checks C03_OnlyClosure (for the innermost Invoke in progress), C03_DepsFirst, C03_RegistrationsSilent; conformance compares the set of executed user functions per API call and fails on any execution during Provide/Decorate/Scope/Visualize/String; repository test-suite traces validated by TLC."),
+ "C04": ("4 C04", "TLC checks C04_MissingIsReal and C04_OptionalNeverHidesError; conformance compares missing-versus-ok verdicts, the missing keys and zero-versus-value for optional parameters, with gaps at every depth and faults, also across repeated Invokes after a failure; repository test-suite traces validated by TLC."),
+ "C05": ("4 C05", "TLC checks C05_StackBound, C05_EagerAcyclic, C05_NoSpuriousCycle, C02_NoReentry, termination as liveness, and Graph.tla (the DFS of internal/graph against declarative cyclicity on all digraphs of 4 nodes); conformance compares cycle verdicts of Provide / Invoke / nested Invoke over digraph families in eager and deferred mode, validates the real IsAcyclic through a hook, and watches for process death in child processes."),
+ "C06": ("4 C06", "TLC checks the action property C06_NoTrace; conformance compares the raw container state before and after every rejected registration (real versus real), the model state after it, and all later observations; every front-end case of Sig.tla is followed by a continuation of valid operations that must succeed."),
+ "C07": ("4 C07", "TLC checks C07_NoPartial, C07_FailureLeavesNoTrace, C13_RootIsLogged with up to two faults per behaviour (error and panic, recover on/off); conformance compares provenance, counters, root causes, caches and on-stack markers after failures; repository test-suite traces validated by TLC; binding self-test."),
+ "C08": ("4 C08", "TLC checks C08_Visible, C08_OwnView, C08_HomeCommit over scope trees with Export; conformance compares provenance from every scope, where values are cached, and Provide verdicts in scopes created before and after registrations."),
+ "C09": ("4 C09", "TLC checks C09_OneProvider and the key clause of C01_Provenance with names, groups and As (Keys family); conformance compares duplicate verdicts and the provenance received under each key; Sig.tla enumerates the front end."),
+ "C10": ("4 C10", "TLC checks C10_Groups (exact bag, feeders called) incl. nested parameter objects; conformance compares the bag of every group slice, feeder counters and group caches."),
+ "C11": ("4 C11", "TLC checks C11_NoTrigger and the soft clause of C10_Groups with the build order defined on object paths (SoftNest family: every layout of a soft group and a single key over one, two and nested objects, with one fault so that parameters are built twice); conformance compares soft slices and the exec log."),
+ "C12": ("4 C12", "TLC checks C12_OnePerScopeKey, the decorator clauses of C01_Provenance / C10_Groups; conformance compares provenance at consumers and decorators, decorator counters, decorated caches and Decorate verdicts."),
+ "C13": ("4 C13", "TLC checks C13_RootIsLogged, C13_InvokeErrIsOwn, C04_OptionalNeverHidesError; the harness classifies every error of every API call and of every nested Invoke with the public API (RootCause, errors.Is/As, PanicError, IsCycleDetected) and compares with the specification's verdict and root cause; panic values are plain values and errors wrapping a dig error."),
+ "C14": ("4 C14", "Sig.tla: TLC enumerates 11 583 signature / tag / option descriptors with the specification's verdict; each is built as a Go value and passed to the real Provide, Decorate and Invoke in three container states under a panic guard, followed by a continuation of valid operations; rejected inputs are checked for state changes (real versus real); Visualize and String are called after every operation of every history."),
+ "C15": ("4 C15", "The specification is defined on flat signatures; the catalog generator assigns positional parameters, parameter objects nested to any depth, result objects, variadics and option-versus-tag encodings; every history is additionally re-recorded under other encodings and compared pairwise (real versus real); Sig.tla checks the flat forms of every enumerated descriptor through Fill*Info."),
+ "C16": ("4 C16", "TLC explores every interleaving of registrations and scope creations for each catalog with and without DeferAcyclicVerification; the view merges orders, every merged history is replayed; recorded histories are re-executed under permuted registration blocks, moved scope creations and flipped verification timing and compared pairwise."),
+ "C17": ("4 C17", "TLC checks C17_DrySilent on dry containers; conformance replays every behaviour on a DryRun container whose user functions record any call, comparing verdict classes; recorded histories are re-executed dry and compared pairwise; repository test-suite traces validated by TLC."),
+ "C18": ("4 C18", "Sig.tla gives the flat parameter / result lists of every enumerated descriptor; Fill*Info results are compared entry by entry (strings, counts, order), must be untouched on rejection (every history), and constructor ids are compared over declared functions."),
+ "C19": ("4 C19", "Viz.tla predicts the picture (clusters, result nodes, edges, dashed, group nodes and members) and the failure picture (root cause, transitive failures, what stays after pruning) of every state; the harness parses the DOT output with its own parser and compares as sets; LibGroups family (five to seven feeders of one group over declared functions, ordered registrations)."),
+ "C20": ("4 C20", "TLC checks C20_OneToOne; conformance compares the CallbackInfo sequence with the exec log under a mock clock: one callback right after each execution, Error class, exact Runtime, Name (declared functions)."),
 }
 checks = []
 for pid,(ref,text) in sorted(props.items()):
@@ -35,7 +35,7 @@ for pid,(ref,text) in sorted(props.items()):
         "engine": "dig-tla",
         "level_claimed": {"category": "model_checking", "text": text, "design_ref": "DESIGN.md section " + ref},
         "level_note": "Trusted: TLC, the Go toolchain, the harness's comparator and type universe (harness/), the hooks in /repo/verif_hooks.go and /repo/verif_trace.go (build tag verif). Bounded: catalogs of <= 4 constructors / 3 scopes exhaustively, larger ones by seeded random traces.",
-        "technique": "explicit TLA+ specification (spec/Dig.tla) model-checked with TLC; TLC behaviours replayed on the real code and recorded real executions validated by TLC (spec/DigGen.tla, spec/DigTrace.tla)",
+        "technique": "explicit TLA+ specification (spec/Dig.tla, Sig.tla, Viz.tla, Graph.tla) model-checked with TLC; TLC-generated behaviours replayed on the real code (spec/DigGen.tla) and executions recorded from the real code - random drivers and the repository's own test-suite under trace hooks - validated by TLC (spec/DigTrace.tla)",
     })
 m = {
  "version": 1,
